@@ -102,6 +102,11 @@ CHECKS = {
             "For every fixed/LPC subframe emitted in the universe the coded residual size equals the brute-force minimum over admissible partition orders x parameters 0..=cap (judged below 2^28 bits).",
             "Brute force shares no code with the subject (u64 arithmetic, no saturation); residual alphabet limited to what the atoms produce plus the seam grid.",
             "DESIGN.md 3 C13"),
+    "C20": ("exploration",
+            "exhaustive enumeration of cargo feature sets (quick: the 4 sets of the project's CI; thorough: all 32 subsets of par/serde/log/decode/experimental) x a fixed corpus of inputs and non-experimental configurations; digests of the emitted bytes compared",
+            "A probe binary is compiled once per feature set and encodes the same corpus (multithread defaulted, false and true); frame count, length and digest of every emitted stream must agree across all sets.",
+            "Corpus of 69 (input, configuration) cases; feature sets that do not build are reported as caps; simd-nightly and mimalloc are not built.",
+            "DESIGN.md 3 C20"),
 }
 
 PENDING_REASON = "check not built yet in this session (work in progress; will be claimed once its engine lands)"
